@@ -1,3 +1,6 @@
 def add_obligations(pack, tier):
     from contracts import C16
+    from contracts import fn_eig as E
+    from contracts.packutil import run_contracts
     C16.run(tier, 0, pid='C17', pack=pack)
+    run_contracts(pack, [(E.pre_check('C17'), E.WIT_F16, E.replay_pre_check), (E.eig_run('C17'),)])
